@@ -14,12 +14,20 @@ BEFORE_FIRST = {0: 3, 1: 4, 2: 5}
 def monitor(case, line):
     toks = line.split()
     mode, stage, seen, polled = None, -1, {}, False
-    stopped_at = None
+    stop_req, alive_at_start, stop_before = False, False, False
     for k, tok in enumerate(toks):
-        if tok[0] == "g":
-            mode, stage, seen, polled = int(tok[1:]), 2, {}, False
+        if tok[0] == "x":
+            stop_req = True
+        elif tok[0] == "g":
+            mode, stage, seen, polled = int(tok[1:].split(",")[0]), 2, {}, False
+            alive_at_start = tok.endswith(",1")
+            stop_before = stop_req
         elif tok[0] == "u":
+            if alive_at_start and not polled and not stop_req:
+                return ("uv_run() on a live loop returned without running an iteration although uv_stop() "
+                        "was not called since the previous uv_run() returned (a stop request was not forgotten)")
             mode = None
+            stop_req = False
         elif tok[0] == "w" and mode is not None:
             t, fl = tok[1:].split(":")
             t = int(t)
